@@ -149,7 +149,7 @@ theorem keep_going_completes_independents (P : Prog V) (fl : Worker → Flags) (
     (hq : ∀ w, w < W → ∃ c, s.wk w = .exited c) :
     ∀ t, t < n → s.res t ≠ none ∨ Blocked sdeps (scanFold sdeps (kgOf fl) Scan.init evs).failedT t := by
   have hc := fsteps_cinv P fl n W sdeps evs _ s Scan.init (cinv_init n W hW sdeps fl res₀) hr hw hscan
-  exact complete_of_cinv n W sdeps fl hlt s _ hc hq
+  exact complete_of_cinv n W sdeps fl hlt s _ hc (fun w hw => Or.inl (hq w hw))
 
 /-- the ghost `failedT` is what it says: set exactly by the `endExc` events of the history -/
 theorem failedT_iff (sdeps : Task → List Task) (kg : Worker → Bool) : ∀ (evs : List (Ev V)) (sc : Scan) (t : Task),
